@@ -27,8 +27,8 @@ EXTRA = {
     'path-taking routes are handed a real file, the open() seam adds short '
     'reads and EIO where the tree opens files through it.',
     'C03': 'Also: format names as str subclasses / enum members, other '
-    'collection types, a caller that edits the list formats returned or the '
-    'collection it passed, reused producer buffers.',
+    'collection types, a caller that edits the list formats returned, '
+    'reused producer buffers.',
     'C05': 'Also: tracing=True inspectors and reused producer buffers.',
     'C06': 'Also: the recorded history is keyed by source chunk (a wrapper '
     'may feed inspectors in pieces or skip empty chunks), long streams '
@@ -43,7 +43,8 @@ EXTRA = {
     'and exact arithmetic agree), utcnow(with_timezone=True), margins '
     'beyond the representable range.',
     'C13': 'Also: watches that travel (copy / deepcopy / pickle replacing '
-    'the original), two watches at once, a clock read that raises, '
+    'the original), two watches at once, a clock read that raises (counted, '
+    'not judged), '
     'integer (2^60) and Fraction clocks, deadlines beyond 2^53.',
     'C20': 'Also: failures that are not OSErrors, every algorithm in '
     'hashlib.algorithms_available.',
